@@ -816,11 +816,16 @@ func (ch *Channel) canSend() bool {
 // Call before calling nextPacketMsg()
 // Goroutine-safe
 func (ch *Channel) isSendPending() bool {
-	if len(ch.sending) == 0 {
+	// nil means nothing in progress (nextPacketMsg resets it to nil after the last packet);
+	// an empty, non-nil slice is a zero-length message still waiting for its packet.
+	if ch.sending == nil {
 		if len(ch.sendQueue) == 0 {
 			return false
 		}
 		ch.sending = <-ch.sendQueue
+		if ch.sending == nil {
+			ch.sending = []byte{}
+		}
 	}
 	return true
 }
